@@ -1,73 +1,195 @@
 #!/venv/bin/python
-"""c05_sweep.py — the "never infinite for finite inputs" clause of C05 evaluated on the implementation over the corner
-the element-wise correspondence does not visit: ALL operands in one float type (float32 and float64), lengths in small
-units (angstrom, nm, um) and large ones (km), times in s / ms / us, energies in ueV / meV / eV, arrival times from the
-first representable value after the flight time of the fixed-energy leg (t0 as the implementation's own helper computes
-it) up to t0 (1 + 1e-3): every result must be finite; at and before t0 it must be NaN.
-stdin: {"seed": int, "n": int}; stdout: RESULT {"harness_violations": [...], "checked": int}"""
+"""c05_sweep.py — the statement of C05 evaluated on the implementation over the corners the element-wise correspondence
+does not visit: ALL operands in one float type (float32 and float64), lengths in small units (angstrom, nm, um) and
+large ones (km), times in s / ms / us, the fixed energy in ueV / meV / eV and (float64 operands) J, through the kernel,
+the graph-factory entry and scippneutron.convert, with scalar operands or (30%) three situations at once (fixed energy and
+lengths as arrays along a detector dim, arrival times 2-D).  Arrival times: the physical one t = L1/v(Ei) + L2/v(Ef) for a random
+energy on the free leg, t0, the value before it, t0/2, and from the first representable value after t0 (the flight time
+of the fixed-energy leg) up to t0 (1 + 1e-3).  Required:
+  * no result is infinite;
+  * at and before t0 the result is NaN; clearly after t0 (beyond the rounding band) it is a number;
+  * the physical arrival time gives Ei - Ef in the unit of the supplied energy (condition-aware bound).
+t0 is taken from the implementation's own helper when that returns a positive finite time within 1e-3 of the formula
+L sqrt(m_n / (2 E)); otherwise (helper renamed, other signature / return type, NaN, ...) from the formula.
+(float32 operands with the energy in J are combined with mm / m / km only: the folded constant m_n/2 underflows in single
+precision for smaller length units - known finding `float32-range` of C07.)
+stdin: {"seed": int, "n": int}; stdout: RESULT {"harness_violations": [...], "checked": int, "classes": {...}}"""
 import json
+import math
 import sys
 
 import numpy as np
 import scipp as sc
+import scipp.constants as const
+
+MEV = 1.602176634e-22
 
 
 def main():
     req = json.load(sys.stdin)
     rng = np.random.default_rng(req.get('seed', 0))
     from scippneutron.conversion import tof as k
+    mn = const.m_n.value
     hv, n = [], 0
+    seen = set()
+    classes = {}
     L_U = [('angstrom', 1e-10), ('nm', 1e-9), ('um', 1e-6), ('mm', 1e-3), ('m', 1.0), ('km', 1e3)]
     T_U = [('s', 1.0), ('ms', 1e-3), ('us', 1e-6)]
-    E_U = [('meV', 1.602176634e-22), ('ueV', 1.602176634e-25), ('eV', 1.602176634e-19)]
+    E_U = [('meV', MEV), ('ueV', MEV * 1e-3), ('eV', MEV * 1e3), ('J', 1.0)]
+
+    def report(key, what, desc):
+        if key in seen or len(hv) >= 6:
+            return
+        seen.add(key)
+        hv.append({'key': key, 'what': what + f': {desc}', 'replay': desc})
+
+    def check_row(v, tv, row, desc, mode, route, dt, tu, eu, em, tm, u):
+        """the statement for ONE physical situation: v = results, tv = arrival times [physical, t0, before.., after..]"""
+        t0v, t0f, Efix_s, Lfree_s, nb = row['t0v'], row['t0f'], row['Efix_s'], row['Lfree_s'], row['nb']
+        if np.isinf(v).any():
+            i = int(np.argmax(np.isinf(v)))
+            report(f'{mode}:sweep:infinite-result',
+                   f'energy transfer ({mode}, {route}) is {v[i]} for the finite arrival time {float(tv[i])!r} {tu} '
+                   f'(t0 = {float(t0v)!r} {tu}, all operands {dt})', desc)
+        if not np.isnan(v[1:nb]).all():
+            report(f'{mode}:sweep:not-nan-at-or-before-t0',
+                   f'energy transfer ({mode}, {route}) is a number at or before the flight time of the fixed-energy leg', desc)
+        clear = tv[nb:] > float(t0v) * (1 + 4 * u)
+        if np.isnan(v[nb:][clear]).any():
+            i = nb + int(np.argmax(clear & np.isnan(v[nb:])))
+            report(f'{mode}:sweep:nan-after-t0',
+                   f'energy transfer ({mode}, {route}) is NaN for the arrival time {float(tv[i])!r} {tu} clearly after the flight time '
+                   f'{float(t0v)!r} {tu} of the fixed-energy leg', desc)
+        # conservation at the physical arrival time (as stored): cond = t / (t - t0)
+        tp = float(tv[0])
+        if tp > t0f * (1 + 10 * u) and tp > float(t0v) * (1 + 10 * u):
+            cond = tp / (tp - t0f)
+            efree_s = mn / 2 * (Lfree_s / ((tp - t0f) * tm)) ** 2        # the free-leg energy the stored time stands for
+            ei, ef = (Efix_s, efree_s) if mode == 'direct' else (efree_s, Efix_s)
+            want = (ei - ef) / em
+            tolv = u * (2 * cond * efree_s + Efix_s) / em
+            if not np.isfinite(v[0]):
+                report(f'{mode}:sweep:{"nan" if np.isnan(v[0]) else "infinite"}-at-physical-time',
+                       f'energy transfer ({mode}, {route}) is {v[0]} for the physical arrival time t = L1/v(Ei) + L2/v(Ef) = {tp!r} {tu} '
+                       f'(expected Ei - Ef = {float(want)!r} {eu})', desc)
+            elif abs(v[0] - want) > tolv:
+                report(f'{mode}:sweep:conservation',
+                       f'energy transfer ({mode}, {route}) is {float(v[0])!r} {eu} at the physical arrival time {tp!r} {tu}, Ei - Ef = {float(want)!r} {eu} '
+                       f'(bound {tolv:.3g})', desc)
+
     for _ in range(int(req.get('n', 300))):
-        dt = rng.choice(['float32', 'float32', 'float64'])
+        dt = str(rng.choice(['float32', 'float32', 'float64']))
         ft = np.float32 if dt == 'float32' else np.float64
         lu, lm = L_U[rng.integers(len(L_U))]
         tu, tm = T_U[rng.integers(len(T_U))]
         eu, em = E_U[rng.integers(len(E_U))]
-        mode = rng.choice(['direct', 'indirect'])
-        Efix = 10 ** rng.uniform(-3, 4) * 1.602176634e-22
-        L1, L2 = 10 ** rng.uniform(-1, 3), 10 ** rng.uniform(-1, 3)
-        E = sc.scalar(ft(Efix / em), unit=eu, dtype=dt)
-        l1 = sc.scalar(ft(L1 / lm), unit=lu, dtype=dt)
-        l2 = sc.scalar(ft(L2 / lm), unit=lu, dtype=dt)
+        if dt == 'float32' and eu == 'J' and lm < 1e-3:
+            # single precision + J + a small length unit: the folded constant m_n/2 [J (t/L)^2] leaves the float32 range
+            # (known finding `float32-range`); J in single precision is swept with mm / m / km only
+            lu, lm = L_U[3 + rng.integers(3)]
+        mode = str(rng.choice(['direct', 'indirect']))
+        route = str(rng.choice(['kernel', 'kernel', 'kernel', 'graph', 'convert']))
+        # one physical situation with scalar operands, or several (one per detector: fixed energy and lengths are arrays
+        # along 'd', the arrival times 2-D) - the usual shape of an indirect-geometry instrument
+        m = 1 if rng.random() < 0.7 else 3
+        u = 2e-5 if dt == 'float32' else 1e-12
+        Efix = 10 ** rng.uniform(-3, 4, m) * MEV
+        Efree = 10 ** rng.uniform(-3, 4, m) * MEV
+        L1, L2 = 10 ** rng.uniform(-1, 3, m), 10 ** rng.uniform(-1, 3, m)
+        if m == 1:
+            E = sc.scalar(ft(Efix[0] / em), unit=eu, dtype=dt)
+            l1 = sc.scalar(ft(L1[0] / lm), unit=lu, dtype=dt)
+            l2 = sc.scalar(ft(L2[0] / lm), unit=lu, dtype=dt)
+        else:
+            E = sc.array(dims=['d'], values=(Efix / em).astype(dt), unit=eu, dtype=dt)
+            l1 = sc.array(dims=['d'], values=(L1 / lm).astype(dt), unit=lu, dtype=dt)
+            l2 = sc.array(dims=['d'], values=(L2 / lm).astype(dt), unit=lu, dtype=dt)
+        Ev, l1v, l2v = (np.asarray(x.values, dtype=np.float64).reshape(-1) for x in (E, l1, l2))
+        helper, helper_err = None, None
         try:
             t0 = k._energy_transfer_t0(E, sc.scalar(ft(1), unit=tu, dtype=dt), l1 if mode == 'direct' else l2)
-            t0v = ft(sc.to_unit(t0, tu).value)
-        except Exception:
-            continue            # helper renamed / changed: the element-wise correspondence and the proofs cover that
-        if not np.isfinite(t0v) or t0v <= 0:
-            continue
-        after = [np.nextafter(t0v, ft(np.inf))]
-        for _i in range(12):
-            after.append(np.nextafter(after[-1], ft(np.inf)))
-        after += [ft(t0v * (1 + f)) for f in (1e-6, 1e-5, 1e-4, 1e-3) if ft(t0v * (1 + f)) > t0v]
-        before = [t0v, np.nextafter(t0v, ft(0)), ft(t0v * 0.5)]
-        t = sc.array(dims=['t'], values=np.array(before + after, dtype=dt), unit=tu, dtype=dt)
-        kw = dict(tof=t, L1=l1, L2=l2)
-        try:
-            if mode == 'direct':
-                r = k.energy_transfer_direct_from_tof(incident_energy=E, **kw)
+            helper = np.asarray(sc.to_unit(t0, tu).values).reshape(-1)
+            if len(helper) != m:
+                helper, helper_err = None, f'{len(helper)} values for {m} situations'
+        except Exception as ex:     # helper renamed / other signature / other return type
+            helper_err = type(ex).__name__
+        rows, tofs = [], []
+        for j in range(m):
+            # the physical situation is the one described by the operands as stored
+            Efix_s, L1_s, L2_s = float(Ev[j]) * em, float(l1v[j]) * lm, float(l2v[j]) * lm
+            Lfix_s, Lfree_s = (L1_s, L2_s) if mode == 'direct' else (L2_s, L1_s)
+            t0f = Lfix_s * math.sqrt(mn / (2 * Efix_s)) / tm
+            tfree = Lfree_s * math.sqrt(mn / (2 * Efree[j])) / tm
+            t0_src = 'helper'
+            if helper is None:
+                t0_src = f'formula (helper unusable: {helper_err})'
+                t0v = ft(t0f)
             else:
-                r = k.energy_transfer_indirect_from_tof(final_energy=E, **kw)
+                t0v = ft(helper[j])
+                if not (np.isfinite(t0v) and t0v > 0 and abs(float(t0v) - t0f) <= 1e-3 * t0f):
+                    t0_src = f'formula (helper returned {float(t0v)!r})'
+                    t0v = ft(t0f)
+            after = [np.nextafter(t0v, ft(np.inf))]
+            for _i in range(12):
+                after.append(np.nextafter(after[-1], ft(np.inf)))
+            after += [ft(t0v * (1 + f)) for f in (1e-6, 1e-5, 1e-4, 1e-3)]
+            before = [t0v, np.nextafter(t0v, ft(0)), ft(t0v * 0.5)]
+            tofs.append(np.array([ft(t0f + tfree)] + before + after, dtype=dt))
+            rows.append({'t0v': t0v, 't0f': t0f, 'Efix_s': Efix_s, 'Lfree_s': Lfree_s, 'nb': 1 + len(before), 't0_src': t0_src,
+                         'Efree_meV': float(Efree[j] / MEV)})
+        nt = len(tofs[0])
+        if m == 1:
+            t = sc.array(dims=['t'], values=tofs[0], unit=tu, dtype=dt)
+        else:
+            t = sc.array(dims=['d', 't'], values=np.stack(tofs), unit=tu, dtype=dt)
+        ename = 'incident_energy' if mode == 'direct' else 'final_energy'
+        kw = {'tof': t, 'L1': l1, 'L2': l2, ename: E}
+
+        def describe(j):
+            return {'mode': mode, 'route': route, 'dtype': dt, 'layout': 'scalar operands' if m == 1 else f'{m} detectors (situation {j} shown)',
+                    'fixed_energy': [[float(x) for x in Ev] if m > 1 else float(Ev[0]), eu],
+                    'L1': [[float(x) for x in l1v] if m > 1 else float(l1v[0]), lu], 'L2': [[float(x) for x in l2v] if m > 1 else float(l2v[0]), lu],
+                    'tof_unit': tu, 't0': float(rows[j]['t0v']), 't0_source': rows[j]['t0_src'],
+                    'free_leg_energy_meV': rows[j]['Efree_meV'], 'tof': [float(x) for x in tofs[j]]}
+        cls = f'{dt}/{eu}/{route}' + ('' if m == 1 else '/per-detector')
+        try:
+            if route == 'kernel':
+                fn = k.energy_transfer_direct_from_tof if mode == 'direct' else k.energy_transfer_indirect_from_tof
+                r = fn(**kw)
+            elif route == 'graph':
+                from scippneutron.conversion.graph import tof as gtof
+                fac = gtof.direct_inelastic if mode == 'direct' else gtof.indirect_inelastic
+                r = fac('tof')['energy_transfer'](**kw)
+            else:
+                import scippneutron as scn
+                da = sc.DataArray(sc.ones(sizes=t.sizes), coords=kw)
+                r = scn.convert(da, origin='tof', target='energy_transfer', scatter=True).coords['energy_transfer']
         except Exception as ex:
+            report(f'{mode}:sweep:{route}-raises', f'energy transfer ({mode}, {route}) raises {type(ex).__name__}: {str(ex)[:150]} '
+                   'for positive finite operands', describe(0))
             continue
-        v = np.asarray(r.values, dtype=np.float64)
-        n += len(v)
-        desc = {'mode': str(mode), 'dtype': str(dt), 'fixed_energy': [float(E.value), eu], 'L1': [float(l1.value), lu],
-                'L2': [float(l2.value), lu], 'tof_unit': tu, 't0': float(t0v), 'tof': [float(x) for x in t.values],
-                'result': [repr(float(x)) for x in v]}
-        if np.isinf(v).any() and len(hv) < 4:
-            i = int(np.argmax(np.isinf(v)))
-            hv.append({'key': f'{mode}:sweep:infinite-result',
-                       'what': f'energy_transfer_{mode}_from_tof returns {v[i]} for the finite arrival time {float(t.values[i])!r} {tu} '
-                               f'(t0 = {float(t0v)!r} {tu}, all operands {dt}): {desc}', 'replay': desc})
-        if not np.isnan(v[:len(before)]).all() and len(hv) < 4:
-            hv.append({'key': f'{mode}:sweep:not-nan-at-or-before-t0',
-                       'what': f'energy_transfer_{mode}_from_tof returns a number at or before the flight time of the fixed-energy '
-                               f'leg: {desc}', 'replay': desc})
-    print('RESULT ' + json.dumps({'harness_violations': hv, 'checked': n}))
+        classes[cls] = classes.get(cls, 0) + 1
+        try:
+            if m > 1:
+                r = r.transpose(['d', 't'])
+            V = np.asarray(r.values, dtype=np.float64).reshape(m, -1)
+            runit = r.unit
+        except Exception as ex:
+            report(f'{mode}:sweep:{route}-result-shape', f'energy transfer ({mode}, {route}) does not return numbers of the shape of the '
+                   f'arrival times ({type(r).__name__}, {type(ex).__name__}: {str(ex)[:100]})', describe(0))
+            continue
+        if V.shape[1] != nt:
+            report(f'{mode}:sweep:{route}-result-shape', f'energy transfer ({mode}, {route}) returns {V.size} elements for {m * nt} arrival times', describe(0))
+            continue
+        n += V.size
+        if runit != sc.Unit(eu):
+            report(f'{mode}:sweep:result-unit', f'energy transfer ({mode}, {route}) is returned in {runit}, the energy was supplied in {eu}',
+                   dict(describe(0), result_unit=str(runit)))
+            continue
+        for j in range(m):
+            desc = dict(describe(j), result=[repr(float(x)) for x in V[j]], result_unit=str(runit))
+            check_row(V[j], np.asarray(tofs[j], dtype=np.float64), rows[j], desc, mode, route, dt, tu, eu, em, tm, u)
+    print('RESULT ' + json.dumps({'harness_violations': hv, 'checked': n, 'classes': classes}))
 
 
 if __name__ == '__main__':
